@@ -26,6 +26,10 @@ CLAIMS = {
          "TLA+ module ChecksumCodes: TLC enumerates every syndrome of weight <=3 / <=2 as a state (VIEW = syndrome) and 'distinct = generated' proves minimum distance 6 (CashAddr, 112-symbol window) and 5 (bech32, 89 symbols), on the generator coefficients and again on the syndrome table computed from the implementation's own polyMod/polymod (verif hooks); affinity/superposition events and corrupted-string acceptance events are judged by TLC trace validation",
          "exhaustive model checking of the code's minimum distance on the implementation's own syndrome table (11.7M + 3.7M states) plus trace validation of substitution patterns of weight 1..5 / 1..4 against the strict decoders",
          "linearity of the implementation's remainder map is sampled (affinity and sparse superposition events), not proved; SHA/curve primitives as in C01"),
+ "C09": ("DESIGN.md §4 C09",
+         "TLA+ spec Bloom (filter as a state machine over the set of set bits, hash function a parameter) model-checked with every hash function for no-false-negatives / monotonicity / unloaded-inert; BIP37 indices defined with MurmurHash3 on 16-bit halves (LibW32); TLC-enumerated operation histories and seeded random histories are executed on real filters and each step (bit delta, answers, state) judged by TLC trace validation",
+         "exhaustive model checking of the abstract filter (all 729 hash functions, all histories) plus TLC trace validation of recorded histories against the bit-exact BIP37 definition",
+         "NewFilter sizing only bounded; state observed through MsgFilterLoad()"),
 }
 
 NOT_YET = "check not built yet in this round; see DESIGN.md for the planned TLA+ model"
